@@ -84,7 +84,7 @@ def _hostile_name(rng, sbx_root_placeholder="@SBX@") -> tuple[str, list[str]]:
     if r < 0.56:
         return rng.choice([".hidden" + ext, "d/.hidden" + ext, "__MACOSX/res" + ext, "__MACOSX/._res" + ext, "d/__MACOSX/x" + ext, ".DS_Store"]), ["hidden"]
     if r < 0.61:
-        return rng.choice(["inner.zip", "d/inner.tar.gz", "x.7z", "y.tgz", "z.TAR"]), ["nested"]
+        return rng.choice(["inner.zip", "d/inner.tar.gz", "x.7z", "y.tgz", "z.TAR", "n.gz", "d/n.bz2", "n.xz", "n.tar.xz", "N.TBZ2"]), ["nested"]
     if r < 0.66:
         return rng.choice(["prog.exe", "pic.png", "noext", "blob.bin", "x.unknownext"]), ["unsupported"]
     if r < 0.72:
@@ -104,7 +104,9 @@ def _gen_archive(rng, tier):
         kind = "file"
         m = {"name": name, "kind": kind, "classes": classes, "token": f"TOK{i}q{rng.randrange(10000)}", "pad": rng.choice([0, 0, 20, 400]),
              "doc": (name.rsplit(".", 1)[-1].lower() if "." in name.rsplit("/", 1)[-1] else "txt")}
-        if m["doc"] not in ("txt", "csv", "md", "html", "json"):
+        if "nested" in classes:
+            m["doc"] = "nested:" + name.rsplit("/", 1)[-1].lower()
+        elif m["doc"] not in ("txt", "csv", "md", "html", "json"):
             m["doc"] = "txt"
         r = rng.random()
         if fmt.startswith("tar") and r < 0.22:
@@ -131,7 +133,9 @@ def _gen_archive(rng, tier):
         spec["7z"] = {"layout": rng.choice(["solid", "per_file"]), "method": rng.choice(["copy", "lzma", "lzma2"]),
                       "encoded_header": rng.random() < 0.3, "crc": rng.random() < 0.6, "attrs": rng.random() < 0.6}
     corrupt = None
-    if rng.random() < 0.12:
+    host_dependent = any("@SBX@" in m["name"] or "@SBX@" in (m.get("link") or "") for m in members)
+    if rng.random() < 0.12 and not host_dependent:
+        # (archives that embed the sandbox path differ in compressed length from run to run: no positional fault on them)
         corrupt = [rng.choice(["flip", "trunc"]), rng.randrange(1 << 30), rng.randrange(8)]
     return {"spec": spec, "corrupt": corrupt, "path": rng.choice(["A", "dir/B", "/abs/C", "Ünï"]) + archgen.ext_of(fmt)}
 
@@ -324,7 +328,7 @@ def _check_history(run, sbx, fmt, classes, mode, k, results, exc, events, fds0, 
                 reason = "hidden"
             elif nm.startswith("__MACOSX/"):
                 reason = "macos_resource_fork"
-            elif base.lower().endswith((".zip", ".tar", ".tar.gz", ".tgz", ".tar.bz2", ".tbz2", ".tar.xz", ".txz", ".7z")):
+            elif base.lower().endswith((".zip", ".tar", ".tar.gz", ".tgz", ".tar.bz2", ".tbz2", ".tar.xz", ".txz", ".7z", ".gz", ".bz2", ".xz")):
                 reason = "nested_archive"
             elif m["kind"] not in ("file",):
                 reason = "non_regular_or_ghost_member:" + m["kind"]
@@ -343,7 +347,7 @@ def run_case(case: dict) -> dict:
     from sharepoint2text.parsing.extractors import archive_extractor as ae
     run = _Run(case)
     run.log.ev("case", K.h64(K.jdump(case)))
-    root = os.path.join(K.sandbox_root(), f"c09-{os.getpid()}")
+    root = os.path.join(K.sandbox_root(), f"c09-{os.getpid() % 10 ** 7:07d}")  # fixed length: archive bytes embed this path
     sbxA = fsseam.Sandbox(os.path.join(root, "A"), "A", case["tokens"][0])
     sbxB = fsseam.Sandbox(os.path.join(root, "Bee", "deeper"), "B", case["tokens"][1])
     fsseam.AUDIT.install()
